@@ -52,6 +52,8 @@ impl<'o, 'c> XmlFormatter<'o, 'c> {
 
         let mut offset = 0;
         for (i, &byte) in buffer.iter().enumerate() {
+            #[cfg(comrak_verif)]
+            crate::verif::step();
             if XML_UNSAFE[byte as usize] {
                 let esc: &[u8] = match byte {
                     b'"' => b"&quot;",
@@ -83,6 +85,8 @@ impl<'o, 'c> XmlFormatter<'o, 'c> {
         let mut stack = vec![(node, plain, Phase::Pre)];
 
         while let Some((node, plain, phase)) = stack.pop() {
+            #[cfg(comrak_verif)]
+            crate::verif::step();
             match phase {
                 Phase::Pre => {
                     let new_plain = if plain {
@@ -108,6 +112,8 @@ impl<'o, 'c> XmlFormatter<'o, 'c> {
                     };
 
                     for ch in node.reverse_children() {
+                        #[cfg(comrak_verif)]
+                        crate::verif::step();
                         stack.push((ch, new_plain, Phase::Pre));
                     }
                 }
@@ -123,6 +129,8 @@ impl<'o, 'c> XmlFormatter<'o, 'c> {
 
     fn indent(&mut self) -> io::Result<()> {
         for _ in 0..(cmp::min(self.indent, MAX_INDENT)) {
+            #[cfg(comrak_verif)]
+            crate::verif::step();
             self.output.write_all(b" ")?;
         }
         Ok(())
